@@ -491,6 +491,17 @@ func rulePerRangePickersDistinct(c *Ctx, rule string) {
 	// matching form of the lookup: the answers are written from a map keyed by ip (ip -> index of the range it answers), so an
 	// ip answers one range only by construction
 	if fn := c.Fn(fipPkg, "(*crdIpam).ByKeyAndIPRanges"); fn != nil {
+		var direct []*ssa.Store // answers written with another index than the map's value
+		matching := 0
+		defer func() {
+			// with the matching form in use, an answer written past the ip -> range map (a fast path for single candidates, say)
+			// is not recorded as taken and can be given to a second range
+			if matching > 0 {
+				for _, st := range direct {
+					c.ob(rule, st.Parent(), "every answer goes through the ip -> range map", st, false, "ipinfos[i] is also written with an index that is not the value of the ip -> range map: that ip is not marked as taken and can answer a later, wider range again")
+				}
+			}
+		}()
 		for _, f := range withAnon(fn) {
 			allInstrs(f, func(in ssa.Instruction) {
 				st, ok := in.(*ssa.Store)
@@ -509,12 +520,15 @@ func rulePerRangePickersDistinct(c *Ctx, rule string) {
 				// index = value of a map range, stored info derived from the key of the same iteration
 				ex, ok := ia.Index.(*ssa.Extract)
 				if !ok {
+					direct = append(direct, st)
 					return // the picker form writes ipinfos[i] with the loop index: judged above
 				}
 				nx, ok := ex.Tuple.(*ssa.Next)
 				if !ok || ex.Index != 2 {
+					direct = append(direct, st)
 					return
 				}
+				matching++
 				rg, ok := nx.Iter.(*ssa.Range)
 				if !ok {
 					return
